@@ -424,7 +424,11 @@ func genSeqPlan(prop string, seed uint64, tier string) *Plan {
 		if long {
 			gcStart, gcEnd = r.Pick(2, 2, 3, 1, 4), r.Pick(-1, -1, 2, 3, 5)
 		}
-		add(Op{Kind: "gc", GCBucket: c.Served[r.Intn(len(c.Served))], GCStart: gcStart, GCEnd: gcEnd, GCDays: 0, Merge: r.Bool(1, 2)})
+		tgc := Op{Kind: "gc", GCBucket: c.Served[r.Intn(len(c.Served))], GCStart: gcStart, GCEnd: gcEnd, GCDays: 0, Merge: r.Bool(1, 2)}
+		if prop == "C03" && r.Bool(1, 5) {
+			tgc.CancelAt = r.Pick(1, 2, 3, 5, 8)
+		}
+		add(tgc)
 		for j := r.Range(0, 3); j > 0; j-- {
 			add(small(r.Intn(nk)))
 		}
@@ -503,6 +507,17 @@ func genSeqPlan(prop string, seed uint64, tier string) *Plan {
 				op.Del = append(op.Del, "some")
 			}
 			op.DelSeed = uint32(r.U64())
+			if (prop == "C02" || prop == "C08") && r.Bool(1, 5) {
+				hasTree := false
+				for _, d := range op.Del {
+					if d == "tree" || d == "some" {
+						hasTree = true
+					}
+				}
+				if !hasTree {
+					op.Del = append(op.Del, "trunc-tree")
+				}
+			}
 			if prop == "C15" && c.NumBucket > 1 && r.Bool(2, 3) {
 				// route change: drop a served bucket, add the bucket of one of the keys, or both
 				cur := append([]int(nil), curRoute...)
@@ -547,6 +562,9 @@ func genSeqPlan(prop string, seed uint64, tier string) *Plan {
 			op.GCDays = r.Pick(-1, 0, 0, 0)
 			op.Merge = r.Bool(1, 2)
 			op.Pretend = r.Bool(1, 10)
+			if prop == "C03" && r.Bool(1, 4) {
+				op.CancelAt = r.Pick(1, 2, 3, 5, 8)
+			}
 			if prop == "C17" {
 				op.GCStart = r.Pick(-7, -1, -1, 0, 0, 1, 2, 3, 4, 6, 9, 997, 998, 5000)
 				op.GCEnd = r.Pick(-3, -1, -1, 0, 1, 2, 3, 4, 6, 9, 997, 100000)
